@@ -9,6 +9,7 @@ NOTES = {
     "C03-m1": "raises the per-thread frame cap; the walk bound added by fix 90612ba makes the cap unreachable, so C03's monitor no longer sees it; the widened acceptance test it also contains is caught by C05",
     "C09-m2": "re-introduces a variant of the end-of-input defect that fix e37a3d0 repaired; patch_rebased.diff is the part that still applies",
     "C06-r3m2": "marks a register valid before the 32-bit range check in CfiStackWalker::set_caller_register; written against 2c7e47f; the strict x86 CFI stage built to answer it exposed a genuine defect on the same path (a failing set_caller_register left a forwarded register valid). Fix 19b16c8 makes walk_with_stack_cfi clear the register whenever set_caller_register fails, so on the current tree the change is behaviourally neutral and no check can (or should) report it",
+    "C15-r4m1": "changes the process state (the crash address of a 32-bit access violation is no longer masked), not the rendering: the JSON report of that state is still schema-conformant ('0x' + at least 8 digits), so C15's monitors accept it by design; the zero-extension clause belongs to C14, whose CrashReason.tla stage reports it",
     "C17-m3": "strips NUL from cache-relative paths in http.rs: needs the http feature and a module name such as '.\\0.'; detected by C16's hostile-name scenarios (writes outside cache/)",
 }
 
